@@ -188,9 +188,7 @@ def handleConnack (c : Ctx) (k : ConnackRx) : Ctx :=
   let c1 := match k.sessionExpiry with
     | some n => { c with sei := n }
     | none => c
-  let c2 := match k.maxPacketSize with
-    | some n => { c1 with maxPkt := some n }
-    | none => c1
+  let c2 := { c1 with maxPkt := k.maxPacketSize }    -- the limit belongs to the connection (absent = none)
   { c2 with recvMax := k.receiveMax, quota := k.receiveMax }
 
 /-- `session_expired` (after the fix), `elapsed` = seconds since the recorded disconnection -/
